@@ -38,7 +38,7 @@
 (*   srv    = [take (max. next() calls), closes (close() calls), after (one next() after        *)
 (*            close)]: the server side of the request                                           *)
 (*  obs  = what the harness (or the implementation-shaped model) saw:                           *)
-(*   call   [done, w, entered, exc, envdiff]  from the server's call to the entry of the app     *)
+(*   call   [done, w, entered, exc, envdiff, envadded]  from the server's call to the app's entry *)
 (*   acts   Seq [w, exc, fwd, res]         one per script action started: warnings emitted      *)
 (*                                         during it, exception the app got, events that        *)
 (*                                         reached the server side during it, result            *)
@@ -49,12 +49,15 @@
 (*   gc     [w, ran]                       the iterable is dropped and collected                *)
 (*   stray  events on the server side outside any action                                        *)
 (*   warning = [c (class name), g (tag derived from the text: drift only)]                      *)
+(*   every step record also carries q, its sequence number within the request                   *)
 (*                                                                                              *)
 (* Every rule is [n, lvl, c, r]: lvl = "must" (documented check: broken <=> warning), "may"     *)
 (* (the monitor is allowed to warn, nothing is claimed), c = warning class ("*" = not stated),  *)
 (* r = the monitor may raise instead of / after warning (malformed arguments it cannot digest). *)
-(* Verdict clauses:  Missing:<step>:<rule>   a documented rule is broken, no warning of its class*)
-(*                   FalseAlarm:<step>:..    a warning although no rule is broken in that step   *)
+(* Verdict clauses:  Missing:<step>:<rule>   a documented rule is broken in that step, no warning *)
+(*                                           of its class then or later in the request            *)
+(*                   FalseAlarm:<step>:..    a warning in that step although no rule was broken    *)
+(*                                           then or earlier in the request                        *)
 (*                   Transparency:<step>:..  a call / datum / exception / close() did not pass   *)
 (*                                           through unchanged, in order, exactly once           *)
 EXTENDS Integers, Sequences, FiniteSets, Bytes
@@ -83,7 +86,7 @@ EntityNames == { <<97, 108, 108, 111, 119>>,
 RequiredKeys == {"REQUEST_METHOD", "SERVER_NAME", "SERVER_PORT", "wsgi.version", "wsgi.input", "wsgi.errors",
                  "wsgi.multithread", "wsgi.multiprocess", "wsgi.run_once"}
 CrashKeys == {"wsgi.version", "wsgi.input", "wsgi.errors"}
-Wrapped == {"wsgi.input", "wsgi.errors", "wsgi.file_wrapper"}
+Wrapped == {"wsgi.input", "wsgi.errors"}
 
 RangeOf(f) == {f[i] : i \in DOMAIN f}
 IsDigit(c) == c >= 48 /\ c <= 57
@@ -251,17 +254,24 @@ RulesCLOSE(code, hd, sent, head) ==
   \cup (IF hasCL /\ ~clean THEN {R("CLOpen", "may", ANY, FALSE)} ELSE {})
   \cup (IF head /\ sent > 0 THEN {R("HeadBody", "may", ANY, FALSE)} ELSE {})
 
-\* ---------------------------------------------------------------- judging one step
+\* ---------------------------------------------------------------- judging one request
+\* The documentation says THAT the monitor warns, not WHEN.  Every step of a request carries a sequence number q
+\* (call, each action, return, each next(), each close(), collection).  Verdicts are causal, not step-exact:
+\*   Missing     a documented rule broken in step q  =>  a warning of its class in some step >= q of the request
+\*               (nothing is claimed for a step the monitor itself left by raising on an argument it cannot digest,
+\*               a rule with r = TRUE, nor for a start_response the server refused)
+\*   FalseAlarm  a warning in step q  =>  a rule (of that class, or of no stated class) broken in some step <= q
+\* That the real monitor warns in the very step (and in which order, with which text) is compared with the
+\* implementation-shaped model as drift.  Tokens: [fam, at, d, q, c]
+T(fam, at, d, q, c) == [fam |-> fam, at |-> at, d |-> d, q |-> q, c |-> c]
 Cats(w) == {w[i].c : i \in 1..Len(w)}
-Covers(r, c) == r.c = ANY \/ r.c = c
-\* documented rule broken => a warning of its class in this step; when the monitor itself raised on an argument
-\* it cannot digest (a rule with r = TRUE is broken) the step ended there and nothing more is claimed for it
-MissingIn(rules, w, raisedByMonitor, at) ==
-  {F("Missing", at, r.n) : r \in {q \in rules : q.lvl = "must" /\ q.c \notin Cats(w) /\ ~(raisedByMonitor /\ \E q2 \in rules : q2.r)}}
-\* a warning => some rule of this step is broken (class as documented)
-FalseIn(rules, w, at, d) ==
-  IF \E i \in 1..Len(w) : ~\E r \in rules : Covers(r, w[i].c) THEN {F("FalseAlarm", at, d)} ELSE {}
 MayRaise(rules) == \E r \in rules : r.r
+\* tokens of one step: the broken rules, the warnings that must follow (unless waived), the warnings emitted
+StepTokens(rules, w, waive, at, d, q) ==
+     {T("rule", at, r.n, q, r.c) : r \in rules}
+  \cup {T("need", at, r.n, q, r.c) : r \in {x \in rules : x.lvl = "must" /\ ~waive}}
+  \cup {T("warn", at, d, q, c) : c \in Cats(w)}
+Tr(at, d) == T("Transparency", at, d, 0, "")
 
 \* ---- state reconstructed from the executed prefix
 Executed(case, obs) == 1..Min2(Len(obs.acts), Len(case.script))
@@ -278,15 +288,15 @@ SentY(obs, k, upto) == IF k > upto \/ k > Len(obs.nexts) THEN 0
 NonBytesSent(case, obs, na, nn) == (\E i \in ExecutedTo(case, obs, na) : case.script[i].k = "W" /\ case.script[i].d.ty # "b")
                         \/ (\E k \in 1..Min2(nn, Len(obs.nexts)) : obs.nexts[k].r = "item" /\ obs.nexts[k].item.ty # "b")
 
-\* ---- the clauses; each returns a set of failures
+\* ---- the steps; each returns its tokens
 JudgeCALL(case, obs) ==
   LET rules == RulesCALL(case.env)  c == obs.call IN
   IF ~c.done THEN {} ELSE
-     MissingIn(rules, c.w, c.exc # "" /\ ~c.entered, "CALL")
-  \cup FalseIn(rules, c.w, "CALL", "env")
-  \* transparent: the application is entered, with the server's environ (the two streams and the file wrapper wrapped)
-  \cup (IF ~MayRaise(rules) /\ (~c.entered \/ c.exc # "") THEN {F("Transparency", "CALL", "not-entered")} ELSE {})
-  \cup (IF c.entered /\ RangeOf(c.envdiff) \ Wrapped # {} THEN {F("Transparency", "CALL", "environ")} ELSE {})
+     StepTokens(rules, c.w, c.exc # "" /\ ~c.entered /\ MayRaise(rules), "CALL", "env", c.q)
+  \* transparent: the application is entered, with the server's environ: no variable removed or replaced but the two
+  \* streams (keys the monitor ADDS, like its wsgi.file_wrapper, are the middleware's right under [pep]: drift only)
+  \cup (IF ~MayRaise(rules) /\ (~c.entered \/ c.exc # "") THEN {Tr("CALL", "not-entered")} ELSE {})
+  \cup (IF c.entered /\ RangeOf(c.envdiff) \ Wrapped # {} THEN {Tr("CALL", "environ")} ELSE {})
 
 SameSR(e, a) == e.k = "SR" /\ e.st = a.st /\ e.hd = a.hd /\ e.x = a.x
 JudgeAct(case, obs, i) ==
@@ -295,58 +305,58 @@ JudgeAct(case, obs, i) ==
        LET rules == RulesSR(a)
            passed == nf = 1 /\ SameSR(o.fwd[1], a) /\ o.exc = o.fwd[1].raised
            monitorRaised == nf = 0 /\ o.exc # ""
-       IN (IF nf = 1 /\ o.fwd[1].raised # "" THEN {} ELSE MissingIn(rules, o.w, monitorRaised, "SR"))
-        \cup FalseIn(rules, o.w, "SR", "args")
-        \* "start_response(status, response_headers, exc_info=None)" reaches the server once, unchanged; what the
-        \* server raises reaches the application
-        \cup (IF passed \/ (MayRaise(rules) /\ monitorRaised) THEN {} ELSE {F("Transparency", "SR", IF nf = 0 THEN "dropped" ELSE IF nf > 1 THEN "repeated" ELSE "changed")})
+           refused == nf = 1 /\ o.fwd[1].raised # ""
+       IN StepTokens(rules, o.w, refused \/ (monitorRaised /\ MayRaise(rules)), "SR", "args", o.q)
+        \* "start_response(status, response_headers, exc_info=None)" reaches the server once, unchanged, before it
+        \* returns; what the server raises reaches the application
+        \cup (IF passed \/ (MayRaise(rules) /\ monitorRaised) THEN {} ELSE {Tr("SR", IF nf = 0 THEN "dropped" ELSE IF nf > 1 THEN "repeated" ELSE "changed")})
     [] a.k = "W" ->
-       LET rules == RulesData(a.d) IN
-          MissingIn(rules, o.w, FALSE, "W") \cup FalseIn(rules, o.w, "W", "data")
+          StepTokens(RulesData(a.d), o.w, FALSE, "W", "data", o.q)
+        \* [pep] write(): the data is handed on before the call returns, unbuffered
         \cup (IF nf = 1 /\ o.fwd[1].k = "W" /\ o.fwd[1].d = a.d /\ o.exc = "" THEN {}
-              ELSE {F("Transparency", "W", IF nf = 0 THEN "dropped" ELSE IF nf > 1 THEN "repeated" ELSE "changed")})
+              ELSE {Tr("W", IF nf = 0 THEN "dropped" ELSE IF nf > 1 THEN "repeated" ELSE "changed")})
     [] a.k = "Y" ->
        LET started == \E j \in 1..(i - 1) : case.script[j].k = "SR" /\ obs.acts[j].exc = ""
            rules == RulesData(a.d) \cup (IF started THEN {} ELSE {RuleYieldBeforeSR})
-       IN MissingIn(rules, o.w, FALSE, "Y") \cup FalseIn(rules, o.w, "Y", "data")
+       IN StepTokens(rules, o.w, FALSE, "Y", "data", o.q)
     [] a.k = "IN" ->
        LET rules == RulesIN(a)
            passed == nf = 1 /\ o.fwd[1].k = "IN" /\ o.fwd[1].m = a.m /\ o.fwd[1].args = a.args
                      /\ o.exc = o.fwd[1].raised /\ (o.exc = "" => o.res = o.fwd[1].r)
            monitorRaised == nf = 0 /\ o.exc # ""
-       IN MissingIn(rules, o.w, monitorRaised, "IN") \cup FalseIn(rules, o.w, "IN", a.m)
-        \* the five stream methods [pep] lists reach the server's stream, their result the application
+       IN StepTokens(rules, o.w, monitorRaised /\ MayRaise(rules), "IN", a.m, o.q)
+        \* the stream methods [pep] lists reach the server's stream, their result the application
         \cup (IF passed \/ (MayRaise(rules) /\ monitorRaised) \/ (a.m = "close" /\ nf = 0 /\ o.exc = "") THEN {}
-              ELSE {F("Transparency", "IN", a.m)})
+              ELSE {Tr("IN", a.m)})
     [] a.k = "ERR" ->
        LET rules == RulesERR(a)
            passed == IF a.m \in {"write", "writelines"}
                      THEN nf = 1 /\ o.fwd[1].k = "ERR" /\ o.fwd[1].m \in {"write", "writelines"} /\ o.fwd[1].d = a.d /\ o.exc = o.fwd[1].raised
                      ELSE nf = 1 /\ o.fwd[1].k = "ERR" /\ o.fwd[1].m = a.m /\ o.exc = o.fwd[1].raised
            monitorRaised == nf = 0 /\ o.exc # ""
-       IN MissingIn(rules, o.w, monitorRaised, "ERR") \cup FalseIn(rules, o.w, "ERR", a.m)
+       IN StepTokens(rules, o.w, monitorRaised /\ MayRaise(rules), "ERR", a.m, o.q)
         \cup (IF passed \/ (MayRaise(rules) /\ monitorRaised) \/ (a.m = "close" /\ nf = 0 /\ o.exc = "") THEN {}
-              ELSE {F("Transparency", "ERR", a.m)})
-    [] OTHER -> FalseIn({}, o.w, "RAISE", "raise") \cup (IF nf # 0 THEN {F("Transparency", "RAISE", "stray")} ELSE {})
+              ELSE {Tr("ERR", a.m)})
+    [] OTHER -> StepTokens({}, o.w, FALSE, "RAISE", "raise", o.q) \cup (IF nf # 0 THEN {Tr("RAISE", "stray")} ELSE {})
 
 JudgeRET(case, obs) ==
   IF ~obs.ret.reached THEN {} ELSE
   LET r == obs.ret
       \* [doc] "strings returned from the WSGI application"
       rules == IF case.ret = "str" /\ r.appexc = "" THEN {R("StrReturned", "must", WS, FALSE)} ELSE {}
-  IN MissingIn(rules, r.w, FALSE, "RET") \cup FalseIn(rules, r.w, "RET", "return")
+  IN StepTokens(rules, r.w, FALSE, "RET", "return", r.q)
    \* what the application raises reaches the server; otherwise the server gets an iterable
-   \cup (IF r.exc # r.appexc THEN {F("Transparency", "RET", "exception")} ELSE {})
+   \cup (IF r.exc # r.appexc THEN {Tr("RET", "exception")} ELSE {})
 
 JudgeNEXT(case, obs, k) ==
   LET n == obs.nexts[k]
       \* not documented ("Iterated over closed 'app_iter'"): allowed after a close()
       rules == IF n.ac THEN {R("IterAfterClose", "may", WS, FALSE)} ELSE {}
-  IN FalseIn(rules, n.w, "NEXT", "next")
+  IN StepTokens(rules, n.w, FALSE, "NEXT", "next", n.q)
    \* every item the application's iterable yields reaches the server unchanged, in order, once; so do its
    \* exhaustion and its exceptions
    \cup (IF n.r = n.appr /\ n.cls = n.appcls /\ (n.r = "item" => n.item = n.appitem) THEN {}
-         ELSE {F("Transparency", "NEXT", IF n.r # n.appr THEN "outcome" ELSE IF n.r = "item" THEN "item" ELSE "exception")})
+         ELSE {Tr("NEXT", IF n.r # n.appr THEN "outcome" ELSE IF n.r = "item" THEN "item" ELSE "exception")})
 
 JudgeCLOSE(case, obs, j) ==
   LET c == obs.closes[j]
@@ -360,32 +370,42 @@ JudgeCLOSE(case, obs, j) ==
       code == Code3(a.st.v)
       sent == SentW(case, obs, 1, c.na) + SentY(obs, 1, c.nn)
       head == case.env.method = "HEAD" /\ "REQUEST_METHOD" \notin RangeOf(case.env.missing)
-      rules == IF lastSR = 0 THEN {} ELSE RulesCLOSE(code, a.hd, sent, head)
+      rules == IF open THEN {R("CloseOpen", "may", ANY, FALSE)} ELSE IF lastSR = 0 THEN {} ELSE RulesCLOSE(code, a.hd, sent, head)
       hasCL == lastSR # 0 /\ Len(Vals(a.hd, N_CONTENT_LENGTH)) > 0
-      why == IF lastSR = 0 THEN "no-response"
+      why == IF open THEN "open" ELSE IF lastSR = 0 THEN "no-response"
              ELSE IF NoBody(code) /\ ~hasCL /\ sent = 0 THEN "204-or-1xx-no-content-length"
              ELSE IF head /\ sent = 0 /\ hasCL /\ code # 304 THEN "head-content-length"
              ELSE "other"
   IN \* [pep] "If the iterable returned by the application has a close() method, the server or gateway must call that
      \*        method": the monitor stands between them, so the server's close() reaches the iterable (once per call)
      (IF c.appcloses = (IF case.ret = "gen" THEN 1 ELSE 0) /\ c.exc = "" THEN {}
-      ELSE {F("Transparency", "CLOSE", IF c.appcloses = 0 THEN "swallowed" ELSE IF c.exc # "" THEN "raised" ELSE "repeated")})
-   \cup (IF open THEN {} ELSE MissingIn(rules, c.w, FALSE, "CLOSE") \cup FalseIn(rules, c.w, "CLOSE", why))
+      ELSE {Tr("CLOSE", IF c.appcloses = 0 THEN "swallowed" ELSE IF c.exc # "" THEN "raised" ELSE "repeated")})
+   \cup StepTokens(rules, c.w, FALSE, "CLOSE", why, c.q)
 
 \* [doc] "unclosed iterators"  (reported when the iterable is collected)
 JudgeGC(case, obs) ==
   IF ~obs.gc.ran THEN {} ELSE
   LET rules == IF Len(obs.closes) = 0 THEN {R("Unclosed", "must", WS, FALSE)} ELSE {} IN
-  MissingIn(rules, obs.gc.w, FALSE, "GC") \cup FalseIn(rules, obs.gc.w, "GC", "closed")
+  StepTokens(rules, obs.gc.w, FALSE, "GC", "closed", obs.gc.q)
 
-Failing(case, obs) ==
+Tokens(case, obs) ==
      JudgeCALL(case, obs)
   \cup UNION {JudgeAct(case, obs, i) : i \in Executed(case, obs)}
   \cup JudgeRET(case, obs)
   \cup UNION {JudgeNEXT(case, obs, k) : k \in 1..Len(obs.nexts)}
   \cup UNION {JudgeCLOSE(case, obs, j) : j \in 1..Len(obs.closes)}
   \cup JudgeGC(case, obs)
-  \cup (IF Len(obs.stray) > 0 THEN {F("Transparency", "STRAY", "event")} ELSE {})
+  \cup (IF Len(obs.stray) > 0 THEN {Tr("STRAY", "event")} ELSE {})
+
+\* final = the request is over (Missing cannot be judged before: the warning may still come)
+Failing(case, obs, final) ==
+  LET ts == Tokens(case, obs)
+      rule == {t \in ts : t.fam = "rule"}
+      need == {t \in ts : t.fam = "need"}
+      warn == {t \in ts : t.fam = "warn"}
+  IN {F("Transparency", t.at, t.d) : t \in {x \in ts : x.fam = "Transparency"}}
+  \cup (IF final THEN {F("Missing", t.at, t.d) : t \in {x \in need : ~\E u \in warn : u.q >= x.q /\ u.c = x.c}} ELSE {})
+  \cup {F("FalseAlarm", u.at, u.d) : u \in {x \in warn : ~\E r \in rule : r.q <= x.q /\ (r.c = ANY \/ r.c = x.c)}}
 
 Fam(fs, fam) == {f \in fs : f.fam = fam}
 =============================================================================
